@@ -167,6 +167,14 @@ def itemsOf (evs : List (SrcEv Bytes)) : List Bytes :=
 def dataOf (evs : List BodyEv) : Bytes :=
   (evs.filterMap (fun | .data b => some b | _ => none)).flatten
 
+/-- the bytes of a body that ARE a gRPC message stream: all the data of a request or of a response
+with HTTP status 200; none of a response with any other HTTP status (an error page, not gRPC —
+such a response is classified by its status, property C04) -/
+def grpcData (c : DecCase) : Bytes :=
+  match c.cfg.dir with
+  | .response http => if http = 200 then dataOf c.evs else []
+  | _ => dataOf c.evs
+
 /-- what a frame's payload decodes to according to the reference decompressor table -/
 def payloadMsg (tab : ZTab) (fp : UInt8 × Bytes) : Option Bytes :=
   if fp.1 = 0 then some fp.2
